@@ -1,7 +1,7 @@
 (* Property C20 - statements only.  Every theorem is closed by [exact] of a lemma from
    Proofs/Keyspace_proofs.v; the statements are pinned again in /verif/pins/C20.v. *)
 From SV Require Import Base.Prelude Model.Keyspace Proofs.Keyspace_proofs.
-Open Scope N_scope.
+Open Scope nat_scope.
 
 (* ---- names ------------------------------------------------------------------------------- *)
 
@@ -25,8 +25,8 @@ Proof. exact verify_name_err. Qed.
    case sensitive), and consists of alphabet characters, the blank of "USE " and the two quotes *)
 Theorem C20_statement : forall k, valid_name (fst k) ->
   parse_use (use_statement k) = Some k /\
-  forall c, In c (use_statement k) -> In c alphabet \/ c = 32 \/ c = dquote.
-Proof. intros k H. split; [exact (parse_use_statement k H)|intros c; exact (use_statement_chars k c H)]. Qed.
+  forall c, In c (use_statement k) -> In c alphabet \/ c = 32%N \/ c = dquote.
+Proof. exact statement_ok. Qed.
 
 (* ---- the check of the server's answer ------------------------------------------------------ *)
 
@@ -58,22 +58,163 @@ Proof. exact use_keyspace_result_err. Qed.
 Theorem C20_aggregate_panic : forall l, use_keyspace_result l = APanic <-> l = [].
 Proof. exact use_keyspace_result_panic. Qed.
 
+(* ---- one node's connection pool: all schedules ------------------------------------------------ *)
+
+(* C20_inv.  In every reachable state of the pool (any interleaving of opening, keyspace setup,
+   use requests - overlapping ones included -, USE submissions and answers, timeouts, connection
+   loss, removal, resharding), every live connection visible to requests has been sent a USE for
+   the pool's current keyspace, or the latest use request is still pending and has that USE left to
+   submit on it, or the latest use request answered its caller with an error. *)
+Theorem C20_inv : forall k0 s k c,
+  reachable k0 s -> cur s = Some k -> ph s c = InPool -> alive s c = true ->
+  In k (told s c) \/
+  (exists r u, cur_uid s = Some u /\ In r (pending s) /\ uid r = u /\ uks r = k /\
+               In c (cov r) /\ stat r c = NotSent) \/
+  (exists u, cur_uid s = Some u /\ In (u, PAErr) (log s)).
+Proof. exact pool_inv. Qed.
+
+(* a new connection is routed through keyspace setup (and is not visible meanwhile): while it is in
+   that phase the USE for the keyspace current at that time has been sent on it *)
+Theorem C20_setup_first : forall k0 s k c,
+  reachable k0 s -> ph s c = Setting k -> In k (told s c).
+Proof. exact setting_told. Qed.
+
+(* C20_after_success.  If a use request arrives at a pool on which no other use request is pending
+   ("call only one use_keyspace at a time"), no further use request follows, and the pool answers it
+   with Ok or with a broken-connection error (the two answers that let Session::use_keyspace return
+   Ok, see C20_aggregate_ok), then in every later state every live connection a request can pick -
+   opened before, during or after the call - has the keyspace acknowledged by the server and no USE
+   frame in flight that could change it. *)
+Theorem C20_after_success : forall k0 ls1 s1 raw cs s2 ls2 s3 a c,
+  run (init k0) ls1 = Some s1 -> pending s1 = [] ->
+  valid_name raw -> step s1 (UseKeyspace raw cs) = Some s2 ->
+  no_use ls2 = true -> run s2 ls2 = Some s3 ->
+  In (unext s1, a) (log s3) -> a <> PAErr ->
+  ph s3 c = InPool -> alive s3 c = true ->
+  wire s3 c = [] /\ matchesb s3 c (raw, cs) = true.
+Proof. exact after_success. Qed.
+
+(* the pool of a node discovered later is constructed with the keyspace; without any use request it
+   never shows a live connection that is not in that keyspace *)
+Theorem C20_fresh_pool : forall k ls s c,
+  no_use ls = true -> run (init (Some k)) ls = Some s ->
+  ph s c = InPool -> alive s c = true ->
+  wire s c = [] /\ matchesb s c k = true.
+Proof. exact fresh_pool. Qed.
+
+(* an invalid name is rejected locally: the state does not change, nothing is sent *)
+Theorem C20_name_rejected : forall s raw cs, ~ valid_name raw -> step s (UseKeyspace raw cs) = Some s.
+Proof. exact use_rejected. Qed.
+
+(* every USE ever submitted on any connection carries a valid name, and its text reads back as that
+   single identifier *)
+Theorem C20_only_valid_names_sent : forall k0 s k c,
+  (forall k, k0 = Some k -> valid_name (fst k)) -> reachable k0 s ->
+  In k (told s c) -> valid_name (fst k) /\ parse_use (use_statement k) = Some k.
+Proof. exact told_valid. Qed.
+
+(* ---- the cluster worker -------------------------------------------------------------------------- *)
+
+(* C20_new_nodes.  Use requests and metadata application are handled by the same task one at a time.
+   Whatever their order: every node of the current cluster state either belongs to the snapshot the
+   latest use request was fanned out to, or its pool was constructed with that keyspace. *)
+Theorem C20_new_nodes : forall n0 ls k,
+  used (wrun (winit n0) ls) = Some k ->
+  exists pre u t, fans (wrun (winit n0) ls) = pre ++ [(u, k, t)] /\
+    forall n, In n (nodes (wrun (winit n0) ls)) -> In n t \/ born (wrun (winit n0) ls) n = Some k.
+Proof. exact new_nodes. Qed.
+
+(* ---- the acceptor run on end-to-end traces ---------------------------------------------------------- *)
+
+(* an accepted trace satisfies the property: a request started after a use_keyspace call that
+   began with no other call in flight, was not overlapped, and returned Ok - with no call since -
+   arrives on a connection whose acknowledged keyspace is the canonical name of that keyspace *)
+Theorem C20_accept_sound : forall k0 t1 u k t2 t3 q t4 x t5,
+  accept_trace k0 (t1 ++ ECall u k :: t2 ++ ERet u true :: t3 ++ EStart q :: t4 ++ EFrame q x :: t5) = true ->
+  pending_calls t1 [] = [] ->
+  no_call t2 = true -> no_call t3 = true -> no_call t4 = true ->
+  forallb (fun e => negb (starts q e)) t4 = true ->
+  x = Some (canon k).
+Proof. exact accept_sound. Qed.
+
 (* non-vacuity *)
 Example C20_ex_names :
-  verify_name [97; 95; 90; 48] = Ok tt /\ verify_name [] = Err NEmpty /\
-  verify_name [97; 34; 59] = Err (NIllegal 34) /\
-  verify_name (repeat 233 49) = Err (NTooLong 49) /\ verify_name (repeat 233 48) = Err (NIllegal 233) /\
-  use_statement ([75; 115], true) = [85; 83; 69; 32; 34; 75; 115; 34] /\
-  use_statement ([75; 115], false) = [85; 83; 69; 32; 75; 115] /\
-  parse_use [85; 83; 69; 32; 107; 59; 100] = None.
+  verify_name [97; 95; 90; 48]%N = Ok tt /\ verify_name [] = Err NEmpty /\
+  verify_name [97; 34; 59]%N = Err (NIllegal 34%N) /\
+  verify_name (repeat 233%N 49) = Err (NTooLong 49%N) /\ verify_name (repeat 233%N 48) = Err (NIllegal 233%N) /\
+  use_statement ([75; 115]%N, true) = [85; 83; 69; 32; 34; 75; 115; 34]%N /\
+  use_statement ([75; 115]%N, false) = [85; 83; 69; 32; 75; 115]%N /\
+  parse_use [85; 83; 69; 32; 107; 59; 100]%N = None.
 Proof. repeat split; vm_compute; reflexivity. Qed.
 Example C20_ex_result :
-  verify_result ([75; 115], false) (RSetKeyspace [107; 115]) = VOk /\
-  verify_result ([75; 115], true) (RSetKeyspace [107; 116]) = VMismatch /\
-  use_keyspace_result [CBroken 1; COk; CBroken 2] = AOk /\
-  use_keyspace_result [CBroken 1; CBroken 2] = ABroken 2 /\
-  use_keyspace_result [COk; CErr 7; CErr 8] = AErr 7.
+  verify_result ([75; 115]%N, false) (RSetKeyspace [107; 115]%N) = VOk /\
+  verify_result ([75; 115]%N, true) (RSetKeyspace [107; 116]%N) = VMismatch /\
+  use_keyspace_result [CBroken 1%N; COk; CBroken 2%N] = AOk /\
+  use_keyspace_result [CBroken 1%N; CBroken 2%N] = ABroken 2%N /\
+  use_keyspace_result [COk; CErr 7%N; CErr 8%N] = AErr 7%N.
 Proof. repeat split; vm_compute; reflexivity. Qed.
+
+(* a schedule meeting the hypotheses of C20_after_success: connection 0 is in the pool before the
+   call, 1 is being opened when the call arrives and becomes ready during it, 2 is opened after it *)
+Definition ex_ks : name := [107%N; 115%N].
+Definition ex_ls1 : list label := [OpenStart; OpenReady 0 true false Accept; OpenStart].
+Definition ex_ls2 : list label :=
+  [OpenReady 1 true false Accept; OpenStart; UseSend 0 0;
+   SetKsDone 1 (Some (RSetKeyspace ex_ks)) false Accept; UseAck 0 (RSetKeyspace ex_ks);
+   UseDone 0 PAOk; OpenReady 2 true false Accept;
+   SetKsDone 2 (Some (RSetKeyspace ex_ks)) false Accept; Request 0; Request 1; Request 2].
+Example C20_ex_after_success :
+  match run (init None) ex_ls1 with
+  | Some s1 =>
+      match pending s1, step s1 (UseKeyspace ex_ks false) with
+      | [], Some s2 =>
+          match run s2 ex_ls2 with
+          | Some s3 =>
+              (no_use ex_ls2, existsb (fun e => Nat.eqb (fst e) (unext s1)) (log s3),
+               map (fun c => (match ph s3 c with InPool => true | _ => false end, alive s3 c,
+                              wire s3 c, matchesb s3 c (ex_ks, false))) [0; 1; 2])
+          | None => (false, false, [])
+          end
+      | _, _ => (false, false, [])
+      end
+  | None => (false, false, [])
+  end = (true, true, [(true, true, [], true); (true, true, [], true); (true, true, [], true)]).
+Proof. vm_compute. reflexivity. Qed.
+
+(* why "no other use request pending" is a hypothesis (documented: "call only one use_keyspace at a
+   time"): two overlapping requests with different names, both answered Ok, leave the connection
+   in the keyspace of the FIRST although the pool's current keyspace is the second *)
+Example C20_ex_overlap :
+  match run (init None)
+          [OpenStart; OpenReady 0 true false Accept; UseKeyspace [97%N] false; UseKeyspace [98%N] false;
+           UseSend 1 0; UseSend 0 0; UseAck 0 (RSetKeyspace [98%N]); UseAck 0 (RSetKeyspace [97%N]);
+           UseDone 0 PAOk; UseDone 1 PAOk] with
+  | Some s => (cur s, acked s 0, log s, alive s 0)
+  | None => (None, None, [], false)
+  end = (Some ([98%N], false), Some [97%N], [(0, PAOk); (1, PAOk)], true).
+Proof. vm_compute. reflexivity. Qed.
+
+(* a failed use (one connection refuses) leaves a connection outside the keyspace: C20_inv's third case *)
+Example C20_ex_failed :
+  match run (init None)
+          [OpenStart; OpenReady 0 true false Accept; UseKeyspace [97%N] false; UseSend 0 0;
+           UseAck 0 RError; UseDone 0 PAErr] with
+  | Some s => (cur s, acked s 0, log s)
+  | None => (None, None, [])
+  end = (Some ([97%N], false), None, [(0, PAErr)]).
+Proof. vm_compute. reflexivity. Qed.
+
+Example C20_ex_worker :
+  let w := wrun (winit 2) [WApply [0; 1] 1; WUse (ex_ks, false); WApply [0; 2] 2] in
+  (nodes w, map (born w) (nodes w), fans w) =
+  ([0; 2; 3; 4], [None; None; Some (ex_ks, false); Some (ex_ks, false)], [(0, (ex_ks, false), [0; 1; 2])]).
+Proof. vm_compute. reflexivity. Qed.
+
+Example C20_ex_accept :
+  accept_trace None [EStart 0; EFrame 0 None; ECall 0 (ex_ks, false); EStart 1; EFrame 1 None; ERet 0 true;
+                     EStart 2; EFrame 2 (Some ex_ks)] = true /\
+  accept_trace None [ECall 0 (ex_ks, false); ERet 0 true; EStart 2; EFrame 2 None] = false.
+Proof. split; vm_compute; reflexivity. Qed.
 
 Print Assumptions C20_name.
 Print Assumptions C20_name_err.
@@ -83,3 +224,11 @@ Print Assumptions C20_verify_honest.
 Print Assumptions C20_aggregate_ok.
 Print Assumptions C20_aggregate_err.
 Print Assumptions C20_aggregate_panic.
+Print Assumptions C20_inv.
+Print Assumptions C20_setup_first.
+Print Assumptions C20_after_success.
+Print Assumptions C20_fresh_pool.
+Print Assumptions C20_name_rejected.
+Print Assumptions C20_only_valid_names_sent.
+Print Assumptions C20_new_nodes.
+Print Assumptions C20_accept_sound.
